@@ -11,7 +11,9 @@
 #define private public   // m_buffer_size is compared with the model's buffer capacity
 #include "ola/rdm/MessageSerializer.h"
 #undef private
+#define private public   // the store's maps identify which store / descriptor a lookup returned
 #include "ola/rdm/PidStore.h"
+#undef private
 #include "common/rdm/DescriptorConsistencyChecker.h"
 #include "common/rdm/GroupSizeCalculator.h"
 #include "common/rdm/VariableFieldSizeCalculator.h"
@@ -241,6 +243,59 @@ static string run(const Descriptor *d, unsigned prev, const vector<uint8_t> &byt
   return o.str() + ldes;
 }
 
+// which store does this pointer denote ("-" for NULL, "?" for a pointer that is no store of g_store)
+static string store_id(const PidStore *s) {
+  if (!s) return "-";
+  unsigned id = 0;
+  bool found = s == g_store->m_esta_store.get();
+  RootPidStore::ManufacturerMap::const_iterator it = g_store->m_manufacturer_store.begin();
+  for (; !found && it != g_store->m_manufacturer_store.end(); ++it)
+    if (it->second == s) { id = it->first; found = true; }
+  if (!found) return "?";
+  return vh::str(id) + "#" + vh::str(s->PidCount());
+}
+static bool store_has(const PidStore *s, const PidDescriptor *d) {
+  PidStore::PidMap::const_iterator it = s->m_pid_by_value.begin();
+  for (; it != s->m_pid_by_value.end(); ++it)
+    if (it->second == d) return true;
+  return false;
+}
+static string desc_id(const PidDescriptor *d) {
+  if (!d) return "-";
+  string owner = "?";
+  if (store_has(g_store->m_esta_store.get(), d)) owner = "0";
+  RootPidStore::ManufacturerMap::const_iterator it = g_store->m_manufacturer_store.begin();
+  for (; owner == "?" && it != g_store->m_manufacturer_store.end(); ++it)
+    if (store_has(it->second, d)) owner = vh::str(static_cast<unsigned>(it->first));
+  return owner + ":" + vh::str(d->Value()) + ":" + d->Name();
+}
+static string unhex_str(const string &h) {
+  vector<uint8_t> b = vh::unhex(h);
+  return string(b.begin(), b.end());
+}
+// "look t1,t2,...": a history of lookups on the one long-lived RootPidStore, result after every call
+static string look_op(const string &ops) {
+  vector<string> ts = vh::split(ops, ',');
+  string out = "h=";
+  for (size_t i = 0; i < ts.size(); i++) {
+    const string &t = ts[i];
+    string body = t.substr(1), r = "?";
+    vector<string> f = vh::split(body, ':');
+    switch (t[0]) {
+      case 'E': r = store_id(g_store->EstaStore()); break;
+      case 'M': r = store_id(g_store->ManufacturerStore(static_cast<uint16_t>(vh::num(body)))); break;
+      case 'V': if (f.size() == 2) r = desc_id(g_store->GetDescriptor(
+                    static_cast<uint16_t>(vh::num(f[0])), static_cast<uint16_t>(vh::num(f[1])))); break;
+      case 'v': r = desc_id(g_store->GetDescriptor(static_cast<uint16_t>(vh::num(body)))); break;
+      case 'N': if (f.size() == 2) r = desc_id(g_store->GetDescriptor(
+                    unhex_str(f[0]), static_cast<uint16_t>(vh::num(f[1])))); break;
+      case 'n': r = desc_id(g_store->GetDescriptor(unhex_str(body))); break;
+    }
+    out += (i ? "|" : "") + r;
+  }
+  return out;
+}
+
 static string handle(const string &p) {
   if (!g_store) return "load=failed;r=store-load-failed";
   vector<string> a = vh::split(p);
@@ -260,6 +315,7 @@ static string handle(const string &p) {
     return run(d.get(), vh::num(a[2]), vh::unhex(a[3]));
   }
   if (a[0] == "reload" && a.size() == 2) return reload_op(vh::num(a[1]));
+  if (a[0] == "look" && a.size() == 2) return look_op(a[1]);
   if (a[0] == "store") {
     // count what the store holds: descriptors and PIDs, as the exporter enumerated them
     unsigned ndesc = 0, npids = 0;
